@@ -138,6 +138,7 @@ package stake
 //@ func (ctrler *StakeCtrler) exeStaking(ctx)
 //@   objinv ctrler != nil && ctrler.delegateeLedger != nil
 //@   assumes cons_ok == ctx.Exec
+//@   assumes forall x :: deadobj[x] ==> allocated(x)
 //@   assumes noalias(ctx)
 //@   assumes u(ctx.Sender.Balance) < 2^120
 //@   requires wf_ctx(ctx) && ctx.Tx.Type == 2 && u(ctx.Tx.Amount) <= u(ctx.Sender.Balance)
